@@ -34,6 +34,12 @@ def fromHexAux : List Char → Option (List UInt8)
 def fromHex (s : String) : Option (List UInt8) :=
   if s = "-" then some [] else fromHexAux s.toList
 
+/-- mirror of the harness' `safe`: verbatim for unproblematic printable strings, 0x-hex otherwise -/
+def safe (s : String) : String :=
+  let ok (c : Char) : Bool := c.isAlphanum || "/_+#$.-!".toList.contains c
+  if s.length > 0 ∧ s.toList.all ok then s
+  else "0x" ++ toHex (s.toList.map (fun c => UInt8.ofNat c.toNat))
+
 def showHex (bs : List UInt8) : String := if bs.isEmpty then "-" else toHex bs
 
 /-- generic read-eval-print loop over stdin: `step` consumes one line -/
